@@ -462,7 +462,17 @@ def run_replay(prop: str, path: str) -> int:
     if bad:
         print(f"INCONCLUSIVE property={prop} reason={bad}")
         return 2
-    mod.replay(body, rec)
+    wkind = str((body.get("witness") or {}).get("kind", "")) if isinstance(body.get("witness"), dict) else ""
+    if wkind.startswith(("threads", "session", "concurrent", "moving", "interleaved", "two-clients")):
+        # schedule- or history-dependent observations are replayed by re-running the shard they came from
+        spec = next((s for s in mod.plan(body["tier"], body["seed"]) if s.get("name") == body.get("shard")), None)
+        if spec is None:
+            print(f"INCONCLUSIVE property={prop} reason=shard {body.get('shard')} is not in the plan any more")
+            return 2
+        mod.run_shard(dict(spec, seed=body["seed"], tier=body["tier"]), rec)
+        rec.violations[:] = [v for v in rec.violations if v["mechanism"] == body["mechanism"]][:3]
+    else:
+        mod.replay(body, rec)
     if rec.violations:
         for v in rec.violations:
             print(f"  reproduced mechanism={v['mechanism']}: {v['message'][:400]}")
